@@ -4,7 +4,7 @@
 (***************************************************************************)
 EXTENDS Wac, Json
 
-WNodeIds == 1..18
+WNodeIds == 1..48
 FocusAllW == 1..Len(W_Pool)
 
 \* Shape of a known finding (known_findings.json, C04): an interface imported by package path under
